@@ -209,7 +209,9 @@ func (j *JSONRPCServer) ExecuteActions(
 			}
 		}
 		for i, value := range values {
-			if value == nil {
+			// Only the error tells an absent key from a key that exists with an
+			// empty value: the state database may return a nil slice for the latter.
+			if errs[i] != nil {
 				continue
 			}
 			storage[string(storageKeysToRead[i])] = value
